@@ -5,6 +5,7 @@ import (
 	"go/token"
 	"go/types"
 	"os"
+	"sort"
 	"strings"
 
 	"golang.org/x/tools/go/ssa"
@@ -59,6 +60,48 @@ func resolveConfig(p *core.Prog) *cfgInfo {
 					}
 				}
 			})
+		}
+	}
+	// Parse may be split into stages (`readSources(); applyOverrides()`): the JSON step is then the function further down
+	// that reads the document itself (os.ReadFile / os.Open) and reaches the decoder, not the stage that calls it
+	{
+		reaches := func(fn *ssa.Function) bool {
+			hit := false
+			for f := range reachableFrom(p, fn) {
+				sx.Instrs(f, func(in ssa.Instruction) {
+					if cc, ok := in.(ssa.CallInstruction); ok {
+						if n := sx.CalleeName(cc); n == "encoding/json.Unmarshal" || n == "(*encoding/json.Decoder).Decode" {
+							hit = true
+						}
+					}
+				})
+			}
+			return hit
+		}
+		var readers []*ssa.Function
+		seenR := map[*ssa.Function]bool{}
+		for _, k := range keep {
+			for f := range reachableFrom(p, k) {
+				if seenR[f] || f.Parent() != nil || !p.InModule(f) || f.Pkg != c.ParseSrc.Pkg || !reaches(f) {
+					continue
+				}
+				reads := false
+				sx.Instrs(f, func(in ssa.Instruction) {
+					if cc, ok := in.(ssa.CallInstruction); ok {
+						switch sx.CalleeName(cc) {
+						case "os.ReadFile", "os.Open", "io.ReadAll":
+							reads = true
+						}
+					}
+				})
+				if reads {
+					seenR[f] = true
+					readers = append(readers, f)
+				}
+			}
+		}
+		if len(readers) == 1 {
+			keep = readers
 		}
 	}
 	c.JSONStep = keep
@@ -160,6 +203,7 @@ func runC09(p *core.Prog, r *core.Report) {
 	r.Rule("C09-R5", "JSON carrier choice: the environment carrier is consulted only when the config path is empty", 1)
 	r.Rule("C09-R6", "presence, not content: an environment value is recorded iff os.LookupEnv reports the variable present (an empty value still counts as mentioned)", 1)
 	r.Rule("C09-R7", "the environment name of a nested field keeps a '_' separator between the group path and the field name", 0)
+	r.Rule("C09-R8", "no package-level state: code reachable from NewFlagSet / Parse stores nothing into package variables of config (no memo, cache or shared scratch value survives from one FlagSet to the next)", 1)
 	r.NotDecided = append(r.NotDecided, "the textual mappings: env-var spelling via strutil.Underscore, JSON key matching, what each strconv parser accepts")
 	r.Trusted = append(r.Trusted, "encoding/json.Unmarshal leaves fields absent from the document untouched", "reflect.Value.Addr().Interface() yields a pointer to the field itself", "os.LookupEnv distinguishes unset from empty", "go/ssa")
 
@@ -480,6 +524,38 @@ func runC09(p *core.Prog, r *core.Report) {
 					if len(nonNil) > 0 && sx.MustPass(c.Parse, nil, rc.At, sx.Cut{Edges: nonNil}) {
 						continue
 					}
+					// the value arrives over its own `!= nil` edge
+					viaOwn := false
+					if rc.To != nil {
+						for e := range nonNil {
+							if e.From == rc.At.Block() && e.To() == rc.To {
+								viaOwn = true
+							}
+						}
+					}
+					if viaOwn {
+						continue
+					}
+					// the value is merged with others and the merged value is tested: `err = stage(); if err != nil { return err }`
+					// where other (constant) errors jump to the same return directly
+					guarded := false
+					if v.Referrers() != nil {
+						for _, u := range *v.Referrers() {
+							ph, ok := u.(*ssa.Phi)
+							if !ok {
+								continue
+							}
+							_, nn := sx.NilEdges(ph)
+							for e := range nn {
+								if e.From == ph.Block() && (e.To() == ret.Block() || (len(e.To().Succs) == 1 && e.To().Succs[0] == ret.Block())) {
+									guarded = true
+								}
+							}
+						}
+					}
+					if guarded {
+						continue
+					}
 				}
 				n++
 				if os.Getenv("GLB_C09_DEBUG") != "" {
@@ -492,6 +568,58 @@ func runC09(p *core.Prog, r *core.Report) {
 			}
 		}
 		r.Check(len(bad) == 0 && n > 0 && len(hdrs) > 0, "C09-R1", "Parse succeeds only after the sources were applied to every flag", p.FuncPos(c.Parse), fmt.Sprintf("%d possibly-nil return(s), all behind the apply loop", n), strings.Join(uniq(bad), "; ")+": fields keep their defaults although the command line, the environment or the JSON document mention them")
+	}
+
+	// ---- R7 (state): what a FlagSet decides depends on its own struct, arguments, environment and file only — code
+	// reachable from NewFlagSet / Parse keeps nothing in package-level variables between FlagSets (a memo of env names, a
+	// shared scratch value): no store to a package variable of config, no Store/Swap/Delete on a package-level sync.Map
+	{
+		var stateful []string
+		scope := map[*ssa.Function]bool{}
+		for _, root := range []*ssa.Function{c.NewSet, c.ParseSrc} {
+			for f := range reachableFrom(p, root) {
+				if rootFn(f).Pkg == c.ParseSrc.Pkg {
+					scope[f] = true
+				}
+			}
+		}
+		for f := range scope {
+			if f.Name() == "init" {
+				continue
+			}
+			sx.Instrs(f, func(in ssa.Instruction) {
+				switch x := in.(type) {
+				case *ssa.Store:
+					a := x.Addr
+					if fa, ok := a.(*ssa.FieldAddr); ok {
+						a = fa.X
+					}
+					if ia, ok := a.(*ssa.IndexAddr); ok {
+						a = ia.X
+					}
+					if g, ok := a.(*ssa.Global); ok && g.Pkg == c.ParseSrc.Pkg {
+						stateful = append(stateful, "store to package variable "+g.Name()+" in "+fnName(f)+" at "+p.Pos(in.Pos()))
+					}
+				case ssa.CallInstruction:
+					n := sx.CalleeName(x)
+					if strings.HasPrefix(n, "(*sync.Map).") && !strings.HasSuffix(n, ".Load") && !strings.HasSuffix(n, ".Range") {
+						if args := sx.Args(x); len(args) > 0 {
+							if g, ok := args[0].(*ssa.Global); ok && g.Pkg == c.ParseSrc.Pkg {
+								stateful = append(stateful, short(n)+" on package variable "+g.Name()+" in "+fnName(f)+" at "+p.Pos(in.Pos()))
+							}
+						}
+					}
+				case *ssa.MapUpdate:
+					if ld, ok := x.Map.(*ssa.UnOp); ok {
+						if g, ok := ld.X.(*ssa.Global); ok && g.Pkg == c.ParseSrc.Pkg {
+							stateful = append(stateful, "insert into package-level map "+g.Name()+" in "+fnName(f)+" at "+p.Pos(in.Pos()))
+						}
+					}
+				}
+			})
+		}
+		sort.Strings(stateful)
+		r.Check(len(stateful) == 0, "C09-R8", "building and parsing a FlagSet keeps no package-level state", p.FuncPos(c.NewSet), "no store to, insert into or sync.Map update of a package variable from NewFlagSet / Parse", strings.Join(uniq(stateful), "; ")+": a later FlagSet (another struct that embeds the same type, another prefix) inherits what an earlier one left there — e.g. environment names computed for a different field path")
 	}
 
 	// ---- R3
